@@ -36,7 +36,7 @@ PROPS = {
     "C02": dict(
         title="Launchpad-token solvency",
         lean=["LP.Props.C02"],
-        profiles=[("life", ALL_VARIANTS)],
+        profiles=[("life", ALL_VARIANTS), ("reserve", GUAR)],
         R={"st": [({"deposit"}, None), ({"claim", "claimPayment"}, FUNDS_MSGS)],
            "xf.lp": {"claim", "claimPayment"}, "lock": ANY},
         D={"bal.lp": ANY, "tdep": ANY, "dep": ANY, "per": {"deposit", "claim", "claimPayment"}},
@@ -87,14 +87,14 @@ PROPS = {
     "C09": dict(
         title="Each participant settles exactly once",
         lean=["LP.Props.C09"],
-        profiles=[("life", ALL_VARIANTS)],
+        profiles=[("life", ALL_VARIANTS), ("vest", ["guarV1", "guarV2"])],
         R={"st": ({"claim"}, None), "xf": {"claim"}, "lock": {"claim"}, "sft": {"claim"}},
         D={k: {"claim"} for k in ["addr.cl", "addr.ut", "addr.uc", "addr.win", "addr.range", "addr.conf"]},
     ),
     "C10": dict(
         title="Blacklisting refunds in full and excludes; un-blacklisting restores",
         lean=["LP.Props.C10"],
-        profiles=[("life", ALL_VARIANTS)],
+        profiles=[("life", ALL_VARIANTS), ("reserve", GUAR)],
         R={"st": [(BL_EPS, None), ({"confirm"}, ["blacklist"])], "xf": {"blacklist", "refundUsers"}},
         D={k: BL_EPS for k in ["addr.bl", "addr.conf", "addr.uts", "addr.bluts", "wl", "tg", "nrw", "payers",
                                "addr.range", "bal.pay", "bal.fee"]},
@@ -109,7 +109,7 @@ PROPS = {
     "C12": dict(
         title="Guarantee reserve conserved; leftovers re-drawn",
         lean=["LP.Props.C12reserve", "LP.Props.C03final"],
-        profiles=[("life", GUAR), ("chunks", GUAR)],
+        profiles=[("reserve", GUAR), ("life", GUAR), ("chunks", GUAR)],
         R={"st": [(ALLOC_EPS | BL_EPS, RESERVE_MSGS), ({"deposit"}, ["Wrong amount"])],
            "draws": {"distribute", "secondary"}},
         D={"nrw": ALLOC_EPS | BL_EPS | {"distribute", "secondary"}, "tg": ANY, "wl": ALLOC_EPS | BL_EPS,
@@ -118,7 +118,7 @@ PROPS = {
     "C13": dict(
         title="Vesting is path-independent, monotone, bounded",
         lean=["LP.Props.C13"],
-        profiles=[("life", ["guarV1", "guarV2"])],
+        profiles=[("vest", ["guarV1", "guarV2"]), ("life", ["guarV1", "guarV2"])],
         R={"st": [({"setSchedule1", "setSchedule2"}, None), ({"claim"}, ["Already claimed all", "negative", "cannot subtract", "claimable - claimed", "insufficient funds"])],
            "xf.lp": {"claim"}},
         D={"sched": ANY, "addr.ut": {"claim"}, "addr.uc": {"claim"}, "addr.claimable": ANY},
@@ -162,7 +162,7 @@ PROPS = {
     "C19": dict(
         title="Pause",
         lean=["LP.Props.C19"],
-        profiles=[("life", ALL_VARIANTS)],
+        profiles=[("life", ALL_VARIANTS), ("vest", ["guarV2"])],
         R={"st": [(ANY, PAUSE_MSGS), ({"pause", "unpause"}, None)]},
         D={"paused": ANY},
     ),
